@@ -105,15 +105,36 @@ def split_bibitems(text):
 KEY_OK = re.compile(r'^[A-Za-z0-9.:+/-]+$')
 NAME_OK = re.compile(r'^[A-Za-z][A-Za-z0-9]*$')
 VALUE_OK = re.compile(r'^[A-Za-z0-9 .:,+/-]*$')
+# "rich" values: also @ " = # ( ) and braces (balanced, checked separately); no backslash, no %
+VALUE_RICH = re.compile(r'^[A-Za-z0-9 .:,+/@"=#(){}-]*$')
 
 
-def valid_file(file, allow_overlap=False):
+def balanced(v):
+    """braces are balanced and properly nested (what a {...}-delimited .bib value needs)"""
+    depth = 0
+    for ch in v:
+        if ch == '{':
+            depth += 1
+        elif ch == '}':
+            depth -= 1
+            if depth < 0:
+                return False
+    return depth == 0
+
+
+def valid_file(file, allow_overlap=False, allow_empty=False, rich_values=False, odd_keys=False):
+    """allow_empty: a field may have the empty value (`note = {}` is stored as '');
+    rich_values: values may contain @ " = # ( ) and balanced braces;
+    odd_keys: the key `*` and the cross-reference targets `` and `*` are allowed."""
     if not isinstance(file, list):
         return False
+    value_re = VALUE_RICH if rich_values else VALUE_OK
     for e in file:
         if not (isinstance(e, dict) and set(e) == {'key', 'type', 'fields', 'persons'}):
             return False
-        if not KEY_OK.match(e['key']) or not NAME_OK.match(e['type']) or e['type'].lower() in ('string', 'preamble', 'comment'):
+        if not (KEY_OK.match(e['key']) or (odd_keys and e['key'] == '*')):
+            return False
+        if not NAME_OK.match(e['type']) or e['type'].lower() in ('string', 'preamble', 'comment'):
             return False
         fnames = [n.lower() for n, _ in e['fields']]
         rnames = [r.lower() for r, _ in e['persons']]
@@ -122,9 +143,15 @@ def valid_file(file, allow_overlap=False):
         if not allow_overlap and set(fnames) & set(rnames):
             return False
         for n, v in e['fields']:
-            if not NAME_OK.match(n) or not VALUE_OK.match(v) or v != ' '.join(v.split()) or not v:
+            if not NAME_OK.match(n):
                 return False
-            if n.lower() == 'crossref' and not KEY_OK.match(v):
+            if n.lower() == 'crossref':
+                if not (KEY_OK.match(v) or (odd_keys and v in ('', '*'))):
+                    return False
+                continue
+            if not value_re.match(v) or v != ' '.join(v.split()) or not balanced(v):
+                return False
+            if not v and not allow_empty:
                 return False
         for r, ns in e['persons']:
             if r.lower() not in ('author', 'editor') or not ns:
